@@ -78,7 +78,45 @@ func After(d Duration) <-chan Time {
 	return ch
 }
 
-func Tick(d Duration) <-chan Time { panic("vtime.Tick not simulated") }
+// Ticker delivers the virtual clock on C every d (one tick is buffered, further ones are dropped while it is
+// unread, as the real one does).
+type Ticker struct {
+	C     <-chan Time
+	c     chan Time
+	d     int64
+	epoch *int
+}
+
+func NewTicker(d Duration) *Ticker {
+	if d <= 0 {
+		panic("non-positive interval for NewTicker")
+	}
+	ch := make(chan Time, 1)
+	e := 0
+	t := &Ticker{C: ch, c: ch, d: int64(d), epoch: &e}
+	t.arm(e)
+	return t
+}
+
+func (t *Ticker) arm(e int) {
+	vrt.AddTimer(t.d, func() {
+		if *t.epoch != e {
+			return
+		}
+		select {
+		case t.c <- Now():
+		default:
+		}
+		t.arm(e)
+	})
+}
+func (t *Ticker) Stop() { *t.epoch++ }
+func (t *Ticker) Reset(d Duration) {
+	*t.epoch++
+	t.d = int64(d)
+	t.arm(*t.epoch)
+}
+func Tick(d Duration) <-chan Time { return NewTicker(d).C }
 
 type Timer struct {
 	C     <-chan Time
@@ -100,6 +138,27 @@ func NewTimer(d Duration) *Timer {
 func (t *Timer) Stop() bool {
 	was := *t.alive
 	*t.alive = false
+	return was
+}
+
+// Reset re-arms the timer (channel timers only deliver once per arming, as the real ones do).
+func (t *Timer) Reset(d Duration) bool {
+	was := *t.alive
+	*t.alive = false
+	alive := true
+	t.alive = &alive
+	ch := t.c
+	vrt.AddTimer(int64(d), func() {
+		if alive {
+			alive = false
+			if ch != nil {
+				select {
+				case ch <- Now():
+				default:
+				}
+			}
+		}
+	})
 	return was
 }
 func AfterFunc(d Duration, f func()) *Timer {
